@@ -2,16 +2,19 @@
 generated cases (histories of runs) and evaluates the oracles of C01-C04.
 Used in a child process:  python -m vp.schedrun cases.json results.jsonl
 (one JSON line per case, flushed, so that a hang is attributed to a case).'''
+import _thread
+import collections.abc
 import copy
 import json
 import pickle
 import random
 import sys
+import types
 
 OUTCOMES = ['done', 'failupd', 'failnone', 'raise', 'none', 'notpair', 'badstatus',
             'badupdate', 'waitstatus', 'intstatus', 'donenone']
 # model view of an outcome: (has_upd, ok)
-OUTCOME_MODEL = {'done': (True, True), 'failupd': (True, False), 'intstatus': (True, True), 'nested': (True, True), 'donenone': (False, True)}
+OUTCOME_MODEL = {'done': (True, True), 'poison': (True, True), 'failupd': (True, False), 'intstatus': (True, True), 'nested': (True, True), 'donenone': (False, True)}
 
 STATUS_NAMES = {1: 'WAITING', 2: 'PENDING', 3: 'DONE', 4: 'FAILED', 5: 'SKIPPED'}
 
@@ -117,6 +120,10 @@ class World:
                 self.deps_idx = deps_idx
                 self.dependents = []       # tasks that depend on this one (gifts go to them)
 
+            def __bool__(self):
+                # a task object may be falsy (e.g. a task that is an empty collection of work items)
+                return self.idx not in world.falsy
+
             def do(self, env, config):
                 ctl = world.harness.ctl
                 ctl.yield_point('task_start', self.idx)
@@ -137,7 +144,7 @@ class World:
                 ctl.note('obs', obs)
                 kind, _, var = world.outcomes[self.idx].partition(':')
                 var = int(var or 0)
-                if kind in ('done', 'intstatus', 'failupd', 'nested'):
+                if kind in ('done', 'intstatus', 'failupd', 'nested', 'poison'):
                     world.expected_payload[self.idx] = k     # this execution's update carries payload k
                 upd = {self.name: {'payload': k}}
                 if kind == 'nested':
@@ -154,10 +161,29 @@ class World:
                             # a status is outside what the model describes)
                             upd[f't{dep_t}'] = {f'gift_{self.idx}': k}
                             world.gifts[(self.idx, dep_t)] = k
+                if kind == 'poison':
+                    # a well-formed update that files something the master cannot read as a status
+                    # under the name of a task that depends on this one
+                    for dep_t in self.dependents[:1]:
+                        upd[f't{dep_t}'] = {'status': ['bogus', 'DONE', 77, None][var % 4]}
+                    return upd, TaskStatus.DONE
                 if kind == 'done':
                     if var % 4 == 1:
                         # a task that returns its whole (previous) entry, clocks included
                         upd[self.name].update(start_clock=0.0, end_clock=0.0)
+                    shape = (var // 4) % 6
+                    if shape == 2:
+                        # a read-only mapping is a mapping (what PythonTask hands out as env)
+                        upd = types.MappingProxyType(upd)
+                    elif shape == 3:
+                        # values that cannot be copied or pickled (the harness drops them before it
+                        # pickles the environment, as a user would have to)
+                        upd[self.name]['handle'] = (_thread.allocate_lock() if var % 8 < 4
+                                                    else (x for x in [1]))
+                    elif shape == 4:
+                        upd = FrozenMap(upd)
+                    elif shape == 5:
+                        upd[self.name]['deep'] = {'a': {'b': {'k': k}}, 'l': [k, {'k': k}]}
                     return upd, TaskStatus.DONE
                 if kind == 'intstatus':
                     return upd, 3
@@ -182,7 +208,10 @@ class World:
                     return upd, ['bogus', 0, None, 99, 'DONE', -1, (3,)][var % 7]
                 if kind == 'badupdate':
                     return [[1, 2, 3], [], (), '', 0, False, set(), 'abc', 5, {self.name: 5},
-                            {self.name: 'text'}, {self.name: None}][var % 12], TaskStatus.DONE
+                            {self.name: 'text'}, {self.name: None},
+                            # the task's own entry as a read-only mapping (cannot hold the clocks)
+                            {self.name: types.MappingProxyType({'payload': k})},
+                            {self.name: FrozenMap({'payload': k})}][var % 14], TaskStatus.DONE
                 if kind == 'waitstatus':
                     return upd, [TaskStatus.WAITING, TaskStatus.PENDING, TaskStatus.SKIPPED, True][var % 4]
                 raise AssertionError(kind)
@@ -192,6 +221,25 @@ class World:
             def do(self, env, config):
                 return {self.name: {'inner': True}}, TaskStatus.DONE
         self.Inner = Inner
+
+
+class FrozenMap(collections.abc.Mapping):
+    '''a mapping that is neither a dict nor mutable'''
+
+    def __init__(self, dct):
+        self._d = dict(dct)
+
+    def __getitem__(self, key):
+        return self._d[key]
+
+    def __iter__(self):
+        return iter(self._d)
+
+    def __len__(self):
+        return len(self._d)
+
+    def __repr__(self):
+        return f'FrozenMap({self._d!r})'
 
 
 class BadStr(Exception):
@@ -327,6 +375,7 @@ def run_history(world, case):
     TaskStatus = world.TaskStatus
     tasks = [world.Probe(t, full[t]) for t in range(n)]
     world.gifts = {}
+    world.falsy = set(case.get('falsy') or [])
     for t in range(n):
         for d in full[t]:
             if d != t:
@@ -359,7 +408,10 @@ def run_history(world, case):
             continue
         st, pay, sc, ec = ent
         dct = {}
-        if st is not None:
+        if st == 'JUNK':
+            # what is left of a status after a round trip through a text format
+            dct['status'] = ['DONE', 'bogus', 'TaskStatus.DONE', 77][t % 4]
+        elif st is not None:
             dct['status'] = getattr(TaskStatus, st)
         if pay is not None:
             dct['payload'] = pay
@@ -483,6 +535,9 @@ def run_history(world, case):
             break
         # carry the environment over the documented way: only DONE entries are merged
         if irun + 1 < len(case['runs']):
+            for ent in env.dictionary.values():
+                if isinstance(ent, dict):
+                    ent.pop('handle', None)
             persisted = pickle.loads(pickle.dumps(env))
             for t in case['runs'][irun + 1].get('lost', []):
                 persisted.dictionary.pop(f't{t}', None)
